@@ -9,6 +9,8 @@ package main
 
 import (
 	"bytes"
+	"crypto/sha256"
+	"encoding/hex"
 	"errors"
 	"fmt"
 	"go/ast"
@@ -660,6 +662,36 @@ func main() {
 			})
 		}
 	})
+
+	// 17. fingerprints: for every function named in fp_names.txt (one `<file>|<receiver type>|<name>` per
+	// line, next to this program) the first 16 hex digits of SHA-256 over its normalised signature and
+	// body, or "missing". A property's fingerprint pins (Pins/FP/Cxx.lean) name the functions its models
+	// were written against: a change to one of them breaks exactly those properties' obligation.
+	exe, _ := os.Executable()
+	for _, dir := range []string{os.Getenv("VERIF_FP_DIR"), ".", filepath.Dir(exe), "/verif/tools/facts"} {
+		b, err := os.ReadFile(filepath.Join(dir, "fp_names.txt"))
+		if dir == "" || err != nil {
+			continue
+		}
+		parsed := map[string]*ast.File{}
+		for _, ln := range strings.Split(string(b), "\n") {
+			f := strings.Split(strings.TrimSpace(ln), "|")
+			if len(f) != 3 {
+				continue
+			}
+			if parsed[f[0]] == nil {
+				parsed[f[0]] = parse(f[0])
+			}
+			h := "missing"
+			if fn := findFn(parsed[f[0]], f[1], f[2]); fn != noFn {
+				sum := sha256.Sum256([]byte(txt(fn.Type) + " " + txt(fn.Body)))
+				h = hex.EncodeToString(sum[:8])
+			}
+			id := regexp.MustCompile(`[^A-Za-z0-9]+`).ReplaceAllString(strings.TrimSuffix(f[0], ".go")+"_"+f[1]+"_"+f[2], "_")
+			fmt.Fprintf(&out, "def fp_%s : String := %s\n\n", id, q(h))
+		}
+		break
+	}
 
 	out.WriteString("end Ldlm.Facts\n")
 	if err := os.WriteFile(os.Args[2], []byte(out.String()), 0o644); err != nil {
